@@ -174,7 +174,7 @@ def make_points(n, seed):
     return pts
 
 
-def check_metric(run, pts, recs, presentation="tensors"):
+def check_metric(run, pts, recs, presentation="tensors", reverse=False):
     """Every point of the grid is one TLC state: inputs are constant per point, outputs compared point by point."""
     import aurel.core as core
     import aurel.finitedifference as fdm
@@ -213,6 +213,12 @@ def check_metric(run, pts, recs, presentation="tensors"):
     fr = lambda x: Fraction(x[0], x[1])
     keys = {"betadown3": (3,), "gammadet": (), "gammaup3": (3, 3), "betamag": (), "gtt": (), "gdet": (), "nup4": (4,), "Ktrace": (),
             "Kup3": (3, 3), "Adown3": (3, 3)}
+    if reverse:
+        # the same quantities requested in the opposite order on a new instance (Adown3 before Kup3 and Ktrace, gdet before gtt ...)
+        keys = dict(reversed(list(keys.items())))
+        presentation_txt = presentation + ", keys in reverse order"
+    else:
+        presentation_txt = presentation
     # two passes: the second one after every quantity (gammadown4, the conformal ones, ...) has been requested once, so that
     # an entry overwritten in place by a later request is seen
     for npass, when in enumerate(("", " [second pass, after every quantity was requested once]")):
@@ -225,7 +231,7 @@ def check_metric(run, pts, recs, presentation="tensors"):
                 run.count(("metric", key, k))
                 if np.abs(g - want).max() > 1e-11 * max(1.0, np.abs(want).max()):
                     run.violation({"clause": "MetricAlgebra", "key": key, "inputs": presentation, "pass": npass},
-                                  f"[inputs given as {presentation}]{when} rel[{key!r}] at the grid point with inputs {pts[k]} = {np.asarray(g).round(10).tolist()}, exact value "
+                                  f"[inputs given as {presentation_txt}]{when} rel[{key!r}] at the grid point with inputs {pts[k]} = {np.asarray(g).round(10).tolist()}, exact value "
                                   f"{np.asarray(want).round(10).tolist()}", {"point": pts[k], "key": key})
                     break
         # identities on the code's outputs at every grid point
@@ -253,7 +259,7 @@ def check_metric(run, pts, recs, presentation="tensors"):
             run.count(("identity", name))
             if not np.isfinite(err) or err > 1e-9:
                 run.violation({"clause": "Identity", "identity": name, "inputs": presentation, "pass": npass}, f"[inputs given as {presentation}]{when} identity '{name}' fails on the grid of {n} exact input points: max deviation {err:.3g}", {})
-    if presentation != "tensors":
+    if presentation != "tensors" or reverse:
         run.traces += 1
         return
     # algebraic symmetries of the curvature outputs (on smooth non-trivial data)
@@ -305,6 +311,7 @@ def run(tier, seed):
     check_placement(run, [p for p in rp.printed if "place" in p])
     check_metric(run, pts, [p for p in rm.printed if "out" in p])
     check_metric(run, pts, [p for p in rm.printed if "out" in p], "components")
+    check_metric(run, pts, [p for p in rm.printed if "out" in p], "tensors", reverse=True)
     pts2 = [dict(p, b=[0, p["b"][1], p["b"][2] or 1]) for p in pts[:60]]
     ptla2 = "<<" + ", ".join("[a2 |-> %d, b |-> <<%d, %d, %d>>, g |-> <<%s>>, k |-> <<%s>>]" % (
         p["a2"], p["b"][0], p["b"][1], p["b"][2], ", ".join(map(str, p["g"])), ", ".join(map(str, p["k"]))) for p in pts2) + ">>"
